@@ -369,6 +369,18 @@ pub mod errors {
         })
     }
 
+    pub fn try_outside_result_function(return_ty: &str, span: Span) -> CompileError {
+        CompileError::type_error(
+            format!(
+                "Cannot use '?' in a function that returns '{}' - the enclosing function must return Result[T, E]",
+                return_ty
+            ),
+            span,
+        )
+        .with_note("The '?' operator returns early with Err(error), so the function itself has to return a Result")
+        .with_hint("Change the return type to Result[T, E], or handle the error with match")
+    }
+
     pub fn trait_conflict(trait_a: &str, trait_b: &str, method: &str, span: Span) -> CompileError {
         CompileError::type_error(
             format!(
